@@ -218,7 +218,7 @@ def main():
             "(re-confirmed by `tools/seedcheck.py import`). `tools/seedcheck.py run` applies a patch to `/repo`, runs the property's quick check "
             "and undoes it (`git checkout -- .`); `run --scratch` does the same on a scratch copy (`VERIF_REPO`) so that runs can go in parallel. "
             f"**{own} of the {total} are detected by the quick check of their own property** (`result_quick.json`, current checks), {other} by the check of the "
-            f"property whose defect class it is (`C17_j` by C04, `C07_r` by C18, `C07_x` by C14 and C15); the {outside} that are not detected need a "
+            f"property whose defect class it is (`C17_j` by C04, `C07_r` by C18, `C07_x` by C14 and C15, `C15_z` by C07); the {outside} that are not detected need a "
             "situation outside the property's quantifier (one is below the numeric resolution of the specification) and are marked in the table. "
             "The checks as they stood when a round arrived missed " + ", ".join(f"{firsts[r]} of round {r}" for r in sorted(firsts)) + " (`result_first.json`); each miss was a gap in what the *drivers* "
             "exercised, closed as noted - the specifications' obligations were not changed for any of them and no check was loosened. "
